@@ -40,7 +40,7 @@ PROPERTIES = {
     },
     'C12': {
         'functions': ['EventResult.update', 'BaseEvent.event_result_update', 'BaseEvent._event_result_is_truthy', 'BaseEvent.event_results_filtered', 'EventResult.__await__.wait',
-                      'BaseEvent.event_results_by_handler_id', 'BaseEvent.event_results_by_handler_name', 'BaseEvent.event_result', 'BaseEvent.event_results_list', 'BaseEvent.event_results_flat_list',
+                      'BaseEvent.event_results_by_handler_id', 'BaseEvent.event_results_by_handler_name', 'BaseEvent.event_result', 'BaseEvent.event_results_list', 'BaseEvent.event_results_flat_list', 'BaseEvent.event_results_flat_dict',
                       'EventResult.handler_completed_signal', 'BaseEvent.event_completed_signal', 'bubus.get_handler_id', 'bubus.get_handler_name'],
         'trusted_base': [AX[k] for k in ('A1', 'A3', 'A6', 'A9', 'A10', 'X1', 'X2')] + [
             'A9: validates_ok(T, v) / validated(T, v) are pydantic\'s verdict and coerced value for (declared type, returned value): uninterpreted, deterministic; '
@@ -48,9 +48,9 @@ PROPERTIES = {
             'EventResult(...) constructor = pydantic model init (fields set from keywords, defaults otherwise)',
             'include filters are pure user predicates (uninterpreted, total, a function of the result object); a lambda handed to an inner accessor means its body, evaluated on the heap at the return of that call',
             'the accessor wrappers are stated over the ghost `last_view` = the dict returned by their inner event_results_filtered call (set at the call site)'],
-        'not_decided': ['event_results_flat_dict (merging of the returned dict VALUES, raise_if_conflicts): not under contract - no model of dict.update / key-view intersection on values of type Any; '
-                        'event_results_flat_list IS under contract: a returned list is an object with the heap field list_items, the result is the concatenation of those lists in handler order '
-                        '(positional clauses over ghost offsets)',
+        'level': 'other',
+        'not_decided': ['event_results_flat_dict: the KEY ORDER of the merged dict is not stated (membership = union of the included dict values, last writer wins, ValueError on a repeated key '
+                        'iff raise_if_conflicts are decided); returned dict / list values are objects with the heap fields dict_items / list_items, dict.update is axiomatised (A10)',
                         'conformance of pydantic itself (A9) - a bounded table-driven stand-in is not included'],
         'assumptions': [],
     },
@@ -153,8 +153,7 @@ PROPERTIES = {
         'trusted_base': [AX[k] for k in ('A1', 'A2', 'A3', 'A5', 'A8', 'A10', 'X1', 'X2')] + [SERIAL_ONLY, HANDLER_MODEL,
             'event_cancel_pending_child_processing: contract assumed (recursive walk), not verified'],
         'not_decided': ['that the cancellation lands at `timeout` seconds (timer accuracy is asyncio.wait_for, A3)',
-                        'second witness of finding F5 (a timeout firing while the awaiting handler processes another event inline leaves THAT event cancelled half-way: all its results terminal, '
-                        'completion signal never set) is not under contract; the accounting part (task_done on every exit) is decided and was repaired'],
+                        'second witness of finding F5 (a cancellation interrupting process_event left the event with only terminal results and an unset completion signal): now under contract (process_event/raises:cancelled:completion_attempted_before_passing_the_cancellation_on) and repaired (fix F5b); what is decided is that completion is ATTEMPTED on every cancelled exit after the handler phase began - that the attempt succeeds needs the converse direction of event_are_all_children_complete, which is not stated'],
         'assumptions': [],
     },
     'C11': {
